@@ -26,6 +26,8 @@ def short_cfg(cfg):
             d['reorderable'] = False
         return d
     return {'levels': [{'mws': [mw(m) for m in l['mws']], 'resources': l['resources']} for l in cfg['levels']],
+            'prefix_bindings': [l.get('prefix_bindings') or [] for l in cfg['levels'][:-1]],
+            'decoys': cfg['route'].get('decoys') or [], 'resp_flavour': cfg.get('resp_flavour') or {},
             'route': {'bindings': cfg['route']['bindings'], 'resources': cfg['route']['resources'],
                       'mws': [mw(m) for m in cfg['route']['mws']], 'endpoint': f(cfg['route']['endpoint']),
                       'render': f(cfg['route'].get('render')), 'methods': cfg['route'].get('methods')},
@@ -90,6 +92,8 @@ def outcome_of(ex, tr, rt):
     if ex.exc is not None:
         return rt.sym_result(ex.exc, tr)
     body = ex.body.decode('utf8', 'replace')
+    if 'resp:' in body and not body.startswith('resp:'):      # a returned HTTP error rendered by the error handler
+        body = body[body.index('resp:'):].split()[0]
     if body.startswith('resp:'):
         parts = body.split(':')
         return ['resp', parts[1]] if (len(parts) >= 3 and parts[2] == str(ex.token)) else ['resp', parts[1], 'token-of-another-request']
@@ -146,18 +150,20 @@ def evaluate(cfg, requests=('hit', 'hit2', '404', '405'), want=('C01', 'C02', 'C
     def run(kind):
         tok_n[0] += 1
         tok = 't%d' % tok_n[0]
+        all_b = spies.prefix_binding_names(cfg) + list(cfg['route']['bindings'])
+        n_decoys = len(cfg['route'].get('decoys') or [])
         if kind in ('hit', 'hit2'):
-            vals = {b: ('v%d_%s' % (tok_n[0], b)) for b in cfg['route']['bindings']}
+            vals = {b: ('v%d_%s' % (tok_n[0], b)) for b in all_b}
             path, method, view = spies.request_path(cfg, vals), 'GET', route_view
             urlv = {b: ['value', v] for b, v in vals.items()}
-            route_sym = ['route', 0]
+            route_sym = ['route', n_decoys]
         elif kind == '404':
             path, method, view, urlv = '/nowhere/at/all', 'GET', null_view, {}
             route_sym = ['route', 'null']
         else:
             if not cfg['route'].get('methods'):
                 return
-            vals = {b: 'w_' + b for b in cfg['route']['bindings']}
+            vals = {b: 'w_' + b for b in all_b}
             path, method, view, urlv = spies.request_path(cfg, vals), 'POST', null_view, {}
             route_sym = ['route', 'null']
         env = probe.make_environ(method, path)
